@@ -110,7 +110,10 @@ func (ex *Exec) callFn(fn *ssa.Function, args []Value, env []Value) Value {
 		fr.locals[fi.idx[p]] = env[i]
 	}
 	ex.posStack = append(ex.posStack, ex.curPos)
+	savedModel := ex.inModelCode
+	ex.inModelCode = fi.model
 	ex.runFrame(fr)
+	ex.inModelCode = savedModel
 	ex.curPos = ex.posStack[len(ex.posStack)-1]
 	ex.posStack = ex.posStack[:len(ex.posStack)-1]
 	ex.depth--
